@@ -1,7 +1,8 @@
 (* C11, kernel level: two inotify instances on the same file system that differ only in the mask of
    their watches (M for the unfiltered watch, M' inside M for the filtered one).  For the same operation
    the queue of the second is the [kkeep M']-part of the queue of the first - up to the kernel's
-   coalescing of a record identical to the last unread one, which is stated honestly: [kcollapse]. *)
+   coalescing of a record that agrees with the last unread one in descriptor, mask and name (the kernel's
+   event_compare does not look at the cookie), which is stated honestly: [kcollapse]. *)
 Require Import WD.Base.Prelude WD.Base.BStr WD.Model.SubEvents WD.Model.Emitter WD.Model.Fs.
 
 (* what the kernel sends a watch with event mask M': IN_IGNORED always, otherwise a shared bit *)
@@ -16,31 +17,51 @@ Proof. unfold kcollapse. now rewrite fold_left_app. Qed.
 Lemma kraw_eqb_refl e : kraw_eqb e e = true.
 Proof. unfold kraw_eqb. now rewrite !N.eqb_refl, beqb_refl. Qed.
 
-Lemma kraw_eqb_eq a b : kraw_eqb a b = true -> a = b.
+(* what the kernel compares when it coalesces: descriptor, mask and name - not the cookie *)
+Definition kkey (e : kraw) : N * N * bytes := (k_wd e, k_mask e, k_name e).
+
+Lemma kraw_eqb_key a b : kraw_eqb a b = true <-> kkey a = kkey b.
 Proof.
-  unfold kraw_eqb. intros H. apply andb_true_iff in H as [H H4]. apply andb_true_iff in H as [H H3].
-  apply andb_true_iff in H as [H1 H2]. apply N.eqb_eq in H1, H2, H3. apply beqb_eq in H4.
-  destruct a, b; simpl in *; congruence.
+  unfold kraw_eqb, kkey. split.
+  - intros H. apply andb_true_iff in H as [H H3]. apply andb_true_iff in H as [H1 H2].
+    apply N.eqb_eq in H1, H2. apply beqb_eq in H3. congruence.
+  - intros H. inversion H as [[H1 H2 H3]]. now rewrite H1, H2, H3, !N.eqb_refl, beqb_refl.
 Qed.
 
-(* kpush either leaves the queue alone (its last record is e) or appends e *)
-Lemma kpush_cases q e : (kpush q e = q /\ exists q0, q = q0 ++ [e]) \/ kpush q e = q ++ [e].
+Lemma kraw_eqb_mask a b : kraw_eqb a b = true -> k_mask a = k_mask b.
+Proof. intros H. apply kraw_eqb_key in H. unfold kkey in H. congruence. Qed.
+
+Lemma kraw_eqb_trans_l a b c : kraw_eqb a b = true -> kraw_eqb b c = kraw_eqb a c.
+Proof.
+  intros H. apply kraw_eqb_key in H.
+  destruct (kraw_eqb b c) eqn:E1, (kraw_eqb a c) eqn:E2; try reflexivity.
+  - apply kraw_eqb_key in E1. assert (K : kkey a = kkey c) by congruence. apply kraw_eqb_key in K. congruence.
+  - apply kraw_eqb_key in E2. assert (K : kkey b = kkey c) by congruence. apply kraw_eqb_key in K. congruence.
+Qed.
+
+(* kpush either leaves the queue alone (its last record agrees with e up to the cookie) or appends e *)
+Lemma kpush_cases q e :
+  (kpush q e = q /\ exists q0 l, q = q0 ++ [l] /\ kraw_eqb l e = true) \/ kpush q e = q ++ [e].
 Proof.
   unfold kpush. destruct (rev q) as [|l r] eqn:E; [right; reflexivity|].
   destruct (kraw_eqb l e) eqn:El; [|right; reflexivity].
-  left. split; [reflexivity|]. apply kraw_eqb_eq in El. subst l. exists (rev r).
+  left. split; [reflexivity|]. exists (rev r), l. split; [|exact El].
   rewrite <- (rev_involutive q), E. reflexivity.
 Qed.
 
-Lemma kpush_last q e : kpush (q ++ [e]) e = q ++ [e].
-Proof. unfold kpush. rewrite rev_app_distr. simpl. now rewrite kraw_eqb_refl. Qed.
+Lemma kpush_last q l e : kraw_eqb l e = true -> kpush (q ++ [l]) e = q ++ [l].
+Proof. intros H. unfold kpush. rewrite rev_app_distr. simpl. now rewrite H. Qed.
+
+(* after l has been pushed, a record that agrees with l up to the cookie is coalesced *)
+Lemma kpush_absorb q l e : kraw_eqb l e = true -> kpush (kpush q l) e = kpush q l.
+Proof.
+  intros H. destruct (kpush_cases q l) as [[H1 [q0 [l0 [-> H2]]]]|H1]; rewrite H1.
+  - apply kpush_last. rewrite <- (kraw_eqb_trans_l l0 l e H2). exact H.
+  - apply kpush_last. exact H.
+Qed.
 
 Lemma kpush_idem q e : kpush (kpush q e) e = kpush q e.
-Proof.
-  destruct (kpush_cases q e) as [[H [q0 ->]]|H]; rewrite H.
-  - apply kpush_last.
-  - apply kpush_last.
-Qed.
+Proof. apply kpush_absorb. apply kraw_eqb_refl. Qed.
 
 Section Twin.
   Variables M M' : N.
@@ -82,8 +103,10 @@ Section Twin.
     q' = kcollapse (filter (fun x : kraw => kkeep M' (k_mask x)) q) -> kkeep M' (k_mask e) = true ->
     kpush q' e = kcollapse (filter (fun x : kraw => kkeep M' (k_mask x)) (kpush q e)).
   Proof.
-    intros -> Hk. destruct (kpush_cases q e) as [[H [q0 ->]]|H]; rewrite H.
-    - rewrite filter_app. cbn [filter]. rewrite Hk, kcollapse_snoc. apply kpush_idem.
+    intros -> Hk. destruct (kpush_cases q e) as [[H [q0 [l [-> Hl]]]]|H]; rewrite H.
+    - (* l is kept as well (same mask), and e is absorbed by it on the other side too *)
+      rewrite filter_app. cbn [filter]. rewrite (kraw_eqb_mask l e Hl), Hk, kcollapse_snoc.
+      apply kpush_absorb. exact Hl.
     - rewrite filter_app. cbn [filter]. rewrite Hk, kcollapse_snoc. reflexivity.
   Qed.
 
